@@ -2,9 +2,9 @@ INIT Init
 NEXT Next
 CONSTANT Mode = "c08"
 CONSTANT PartN = 4
-CONSTANT PartSubN = 3
+CONSTANT PartSubN = 4
 CONSTANT OneFileN = 5
-CONSTANT MachN = 3
+CONSTANT MachN = 4
 CONSTANT ProgN = 0
 CONSTANT MachPaths = 0
 CONSTANT MachProgN = 0
